@@ -1,4 +1,5 @@
 import CalicoVerif.Proofs.C19b
+import CalicoVerif.Model.C22
 /-!
 C22 — Each block has at most one confirmed owner.
 
@@ -244,6 +245,161 @@ theorem one_owner_record_partial : ∀ (evs : List Ev) (s s' : St) (b r r' : Nat
           · right; rw [ih, st]
         · right; exact ih
     · cases hr
+
+
+/-- Every stored block revision is at most the datastore's revision counter. -/
+def RevB (s : St) : Prop := ∀ b r v, s.blk b = some (r, v) → r ≤ s.rev
+
+theorem revB_applyWrite {s s' : St} {c : Call} (hi : RevB s) (hw : applyWrite s c = some s') :
+    RevB s' ∧ s.rev ≤ s'.rev := by
+  have key : ∀ (x : Option (Nat × Blk)) (b0 : Nat), (∀ r v, x = some (r, v) → r ≤ s.rev + 1) →
+      ∀ b r v, upd s.blk b0 x b = some (r, v) → r ≤ s.rev + 1 := by
+    intro x b0 hx b r v h
+    unfold upd at h
+    split at h
+    · exact hx r v h
+    · have := hi b r v h; omega
+  have same : ∀ b r v, s.blk b = some (r, v) → r ≤ s.rev + 1 := fun b r v h => by have := hi b r v h; omega
+  unfold applyWrite at hw
+  split at hw
+  · injection hw with hw; subst hw
+    exact ⟨key _ _ (fun r v hx => by injection hx with hx; injection hx with e _; omega), by simp⟩
+  · split at hw
+    · cases hw
+    · split at hw
+      · cases hw
+      · split at hw
+        · cases hw
+        · injection hw with hw; subst hw
+          exact ⟨key _ _ (fun r v hx => by injection hx with hx; injection hx with e _; omega), by simp⟩
+  · split at hw
+    · cases hw
+    · split at hw
+      · split at hw
+        · split at hw
+          · injection hw with hw; subst hw; exact ⟨key _ _ (fun r v hx => by cases hx), by simp⟩
+          · cases hw
+        · cases hw
+      · split at hw
+        · cases hw
+        · split at hw
+          · injection hw with hw; subst hw; exact ⟨key _ _ (fun r v hx => by cases hx), by simp⟩
+          · cases hw
+  all_goals first
+    | (cases hw; done)
+    | (injection hw with hw; subst hw; exact ⟨same, by simp⟩)
+    | (split at hw <;> first
+        | (cases hw; done)
+        | (injection hw with hw; subst hw; exact ⟨same, by simp⟩)
+        | (split at hw <;> first
+            | (cases hw; done)
+            | (injection hw with hw; subst hw; exact ⟨same, by simp⟩))
+        | (dsimp only at hw; split at hw <;> first
+            | (cases hw; done)
+            | (injection hw with hw; subst hw; exact ⟨same, by simp⟩)))
+
+theorem revB_step {s s' : St} {e : Ev} (hi : RevB s) (h : step s e = some s') : RevB s' ∧ s.rev ≤ s'.rev := by
+  have triv : RevB s ∧ s.rev ≤ s.rev := ⟨hi, Nat.le_refl _⟩
+  cases e with
+  | tick => simp only [step] at h; injection h with h; subst h; exact triv
+  | «begin» t => simp only [step] at h; injection h with h; subst h; exact triv
+  | endOp t a =>
+    simp only [step] at h
+    split at h
+    · injection h with h; subst h; exact triv
+    · cases h
+  | call c =>
+    simp only [step] at h
+    split at h
+    · split at h
+      · split at h
+        · exact revB_applyWrite hi h
+        · cases h
+      · injection h with h; subst h; exact triv
+    · injection h with h; subst h; exact triv
+
+theorem revB_run : ∀ (evs : List Ev) (s s' : St), RevB s → run s evs = some s' → RevB s' ∧ s.rev ≤ s'.rev
+  | [], s, s', hi, h => by simp only [run] at h; injection h with h; subst h; exact ⟨hi, Nat.le_refl _⟩
+  | e :: es, s, s', hi, h => by
+    simp only [run] at h
+    split at h
+    · rename_i s1 h1
+      have a := revB_step hi h1
+      have b := revB_run es s1 s' a.1 h
+      exact ⟨b.1, by omega⟩
+    · cases h
+
+/-- The block rewrite of `getBlockFromAffinity` ("writing block to get a new revision") is what
+makes a concurrent `releaseBlockAffinity` fail: let a releaser read block `b` at revision `q`
+(state `s1`), let ANYTHING happen (`evs2`), let the claimer's rewrite of `b` succeed; then the
+releaser's compare-and-delete / compare-and-swap of `b` with its revision `q` cannot succeed,
+whatever fault is injected. -/
+theorem claim_invalidates_concurrent_release (r0 nb : Nat) (evs1 evs2 : List Ev) (s1 s2 s3 : St)
+    (h1 : run (St.init r0 nb) evs1 = some s1) (b q : Nat) (v : Blk) (hread : s1.blk b = some (q, v))
+    (h2 : run s1 evs2 = some s2)
+    (c : Call) (hk : c.key = Key.blk b) (hv : c.verb = Verb.update) (g1 g2 : List Nat)
+    (hp : c.pl = Payload.blkRmw g1 BOp.bump g2)
+    (hok : casOutcome (s2.curRev c.key) c.verb c.rev c.fault = Outcome.ok)
+    (h3 : step s2 (.call c) = some s3) :
+    ∀ (verb : Verb) (f : Fault), verb = Verb.delete ∨ verb = Verb.update →
+      casOutcome (s3.curRev (Key.blk b)) verb (some q) f ≠ Outcome.ok := by
+  have hb0 : RevB (St.init r0 nb) := by intro b r v h; cases h
+  have a1 := revB_run evs1 _ s1 hb0 h1
+  have a2 := revB_run evs2 s1 s2 a1.1 h2
+  have hq : q ≤ s2.rev := by have := a1.1 b q v hread; omega
+  -- the rewrite stores the block at revision s2.rev + 1
+  have hnew : ∃ v', s3.blk b = some (s2.rev + 1, v') := by
+    simp only [step] at h3
+    split at h3
+    · split at h3
+      · split at h3
+        · unfold applyWrite at h3
+          rw [hk, hv, hp] at h3
+          simp only at h3
+          split at h3
+          · cases h3
+          · split at h3
+            · cases h3
+            · rename_i res _
+              split at h3
+              · cases h3
+              · injection h3 with h3; subst h3
+                exact ⟨res.v, by simp [upd]⟩
+        · cases h3
+      · rename_i hnw
+        rw [hv] at hnw
+        simp [Verb.isWrite] at hnw
+    · rename_i hne
+      exact absurd hok hne
+  obtain ⟨v', hb3⟩ := hnew
+  intro verb f hverb
+  simp only [St.curRev, hb3, Option.map_some]
+  have hne : (q != s2.rev + 1) = true := by simp; omega
+  rcases hverb with e | e <;> subst e <;> cases f <;> simp [casOutcome, hne]
+
+
+/-- The claim paths as call sequences (`step22`): in every run, a write of a BlockAffinity to
+`confirmed` by thread `t` succeeds only if `t` holds the licence for exactly that (host,
+block) — obtained, since its last `pending` write, by its own block create, its own read
+after a lost create, or its own block rewrite.  (The guard of `licStep`; the driver
+evaluates it on every real call, so a DROPPED block rewrite in getBlockFromAffinity is a
+model/code disagreement.) -/
+theorem confirm_requires_own_block_write (s s' : St22) (c : Call) (x b : Nat)
+    (h : step22 s (.call c) = some s') (hk : c.key = Key.aff x b) (hv : c.verb = Verb.update)
+    (hp : c.pl = Payload.affSt AffSt.confirmed)
+    (hok : casOutcome (s.cas.curRev c.key) c.verb c.rev c.fault = Outcome.ok) :
+    s.l.lic c.t = some (x, b) := by
+  simp only [step22] at h
+  cases hl : licStep s.l s.cas c with
+  | none => simp [hl] at h
+  | some l' =>
+    unfold licStep at hl
+    rw [hk, hv, hp] at hl
+    simp only [hk, hv] at hok
+    simp only [hok, beq_self_eq_true, if_true] at hl
+    split at hl
+    · rename_i hc; simpa using hc
+    · cases hl
 
 /-! ### The full-strength affinity-object statements are false -/
 
